@@ -138,6 +138,17 @@ def pure_expr(e):
     return True
 
 
+def mk_node(fn, kind, line, **attrs):
+    from .facts import Node
+    c = Node.__new__(Node)
+    _clone_id[0] -= 1
+    c.j = dict(attrs)
+    c.j.update({'id': _clone_id[0], 'k': kind, 'l': line})
+    c.id, c.k, c.l, c.fn, c.parent, c.role, c.rl, c.c = _clone_id[0], kind, line, fn, None, None, [], []
+    fn.nodes[c.id] = c
+    return c
+
+
 def clone_node(n, fn, parent=None, role=None):
     from .facts import Node
     c = Node.__new__(Node)
@@ -311,9 +322,12 @@ def _normalise(fn):
                     set_children(n, new)
                     changed = True
             # N-WHILE
-            elif k == 'ForStmt' and n.child('init') is None and n.child('inc') is None and n.child('cond') is not None:
+            elif k == 'ForStmt' and n.child('init') is None and n.child('inc') is None:
+                cond = n.child('cond')
+                if cond is None:
+                    cond = mk_node(fn, 'CXXBoolLiteralExpr', n.l, v=True, t='bool', cv=1)      # for (;;) == while (true)
                 setj(n, k='WhileStmt')
-                set_children(n, [(ch, role) for ch, role in pairs(n) if role in ('cond', 'body')])
+                set_children(n, [(cond, 'cond'), (n.child('body'), 'body')])
                 changed = True
             elif k == 'CompoundStmt':
                 ch = [c for c in n.c if c is not None]
